@@ -10,7 +10,7 @@ LEVEL = "exploration"
 RULE = ("well-formed strings: symbols of arbitrary bracket-free, dot-free text (letters, digits, punctuation, spaces, Unicode, control "
         "characters, empty body), single dots strictly between symbols, and the empty string; collections of 0-6 such strings. "
         "split_selfies must yield exactly the own tokenisation, len_selfies its length, get_alphabet_from_selfies the symbol set "
-        "without '.'; every encoder output (random molecules, dataset) must be well formed, and the token tap M6 must show the "
+        "without '.', also when asked again after the strings went through the encoding utilities and the decoder; every encoder output (random molecules, dataset) must be well formed, and the token tap M6 must show the "
         "decoder consuming exactly these tokens. distinct = distinct string; non-trivial = >= 3 symbols or a dot")
 ASSUMPTIONS = ["leading and doubled dots are outside the stated domain and are not judged (split_selfies starts at the first '['); "
                "a single trailing dot is judged"]
@@ -23,7 +23,7 @@ def shards(tier):
 
 def floors(tier):
     return {"strings": 20000, "collections": 2000, "with_dots": 5000, "empty_string": 16, "encoder_outputs": 1000,
-            "decoder_token_taps": 2000, "unicode_or_control": 2000, "empty_body_symbols": 200, "decoder_cited_tokens_checked": 1500}
+            "decoder_token_taps": 2000, "pipeline_reuse": 2000, "unicode_or_control": 2000, "empty_body_symbols": 200, "decoder_cited_tokens_checked": 1500}
 
 
 def make(rng):
@@ -89,6 +89,43 @@ def run(ctx):
             ctx.finding("alphabet-from-selfies-differs", {"strings": strs[:6]}, "got %r want %r" % (
                 sorted(r[1])[:8] if r[0] == "ok" else r, sorted(want)[:8]))
         ctx.case(tuple(strs), len(want) >= 2)
+    # the same strings once more after a data pipeline has used them: alphabet, vocabulary, padded label / one-hot
+    # encodings (single and batch), partially consumed and edited token lists, a decode - the answers for a string do
+    # not depend on what was done with it before
+    for i in range(150 if quick else 5000):
+        coll = [make(rng) for _ in range(rng.randint(1, 5))]
+        strs = ["".join(it) for it in coll]
+        for it in coll:
+            judge(it, "pipeline-first-use")
+        want = set(t for it in coll for t in it if t != ".")
+        vocab = {t: k for k, t in enumerate(sorted(want | {"[nop]", "."}))}
+        width = max(len(it) for it in coll) + rng.randint(0, 4)
+        for _ in range(rng.randint(1, 4)):
+            k = rng.randrange(len(strs))
+            x = rng.random()
+            if x < 0.4:
+                call_guard(lambda: sf.selfies_to_encoding(strs[k], vocab, pad_to_len=rng.choice([-1, width, width + 3]),
+                                                          enc_type=rng.choice(["label", "one_hot", "both"])))
+            elif x < 0.6:
+                call_guard(lambda: sf.batch_selfies_to_flat_hot(strs, vocab, pad_to_len=width))
+            elif x < 0.75:
+                g = call_guard(lambda: sf.split_selfies(strs[k]))
+                if g[0] == "ok":
+                    call_guard(lambda: [next(g[1], None) for _ in range(rng.randint(0, 3))])    # left half consumed
+            elif x < 0.9:
+                lst = call_guard(lambda: list(sf.split_selfies(strs[k])))
+                if lst[0] == "ok":
+                    lst[1].append("[nop]")
+                    del lst[1][:1]
+            else:
+                call_guard(lambda: sf.decoder(strs[k]), expected=(sf.DecoderError,))
+        ctx.count("pipeline_reuse")
+        for it in coll:
+            judge(it, "pipeline-after-use")
+        r = call_guard(lambda: sf.get_alphabet_from_selfies(strs))
+        if r[0] != "ok" or r[1] != want:
+            ctx.finding("alphabet-from-selfies-differs", {"strings": strs[:6], "src": "pipeline-after-use"}, "got %r want %r" % (
+                sorted(r[1])[:8] if r[0] == "ok" else r, sorted(want)[:8]))
     # encoder outputs are well formed and the decoder consumes exactly these tokens
     sf.set_semantic_constraints("hypervalent")
     smi = []
